@@ -314,6 +314,9 @@ def run_one_path(ex: Exec, repo, c: Contract, mod, node, case, res: FunctionResu
         outcome = ("raise", rs)
     finally:
         ex.depth = 0
+    # vacuity guard: the assumptions collected along a completed path must be satisfiable
+    if ex.check_sat([], 5000) == z3.unsat:
+        raise Unsupported(f"path {ex.path_id or '-'} completes under contradictory assumptions (engine axiom or callee contract inconsistent)")
     if outcome[0] == "return":
         res.normal_paths += 1
         fr.locals["result"] = outcome[1]
